@@ -3,6 +3,7 @@ package harness
 import (
 	"encoding/json"
 	"fmt"
+	"math"
 	"path/filepath"
 	"strings"
 
@@ -181,10 +182,23 @@ func init() {
 			return genSeqCase(r, seqProfile{prop: "C14", steps: [2]int{15, 60}, keys: [2]int{2, 4}, maxTx: 4, txWeight: 55, ctlWeight: 8, reopen: rp, big: true, readback: "auto", walk: "final", deleteHeavy: r.Intn(2) == 0, overlap: r.Intn(2) == 0})
 		}}})
 	Register(seqProp{id: "C17",
-		rule: "cases: 150-600 tiny writes interleaved with deletes, collector runs, drains and reopenings, directory limit at its clamp (config values 0-150 generated), 1-3 roots; after every step a walk of the roots: every regular file at root/<uuid>/<uuid>, a uuid directory per root once a write was attempted, no directory above the limit, a directory that was full and regained room receives a new file within 300 further writes; non-trivial = at least 100 writes (directories rotate)",
+		rule: "cases: 150-600 tiny writes interleaved with deletes, collector runs, drains and reopenings, directory limit at its clamp (config values 0-150 generated), 1-3 roots; after every step a walk of the roots: every regular file at root/<uuid>/<uuid>, a uuid directory per root once a write was attempted, no directory above the limit, a directory that was full and regained room receives a new file before the chance of a uniform choice among the directories below the limit missing it that long falls under 1e-12 (about 70 writes with 3 candidates, 210 with 8); non-trivial = at least 100 writes (directories rotate)",
 		runs: [2]int{600, 20000},
 		gen: func(r *simrt.Rand, idx int, tier string) SeqCase {
 			c := genSeqCase(r, seqProfile{prop: "C17", steps: [2]int{150, 600}, keys: [2]int{4, 8}, ctlWeight: 6, reopen: 1, readback: "none", walk: "shape", deleteHeavy: idx%2 == 0})
+			if idx%2 == 0 {
+				// a tail of writes after the mixed phase: a directory that regained room late still
+				// has its 200 writes to be chosen again
+				id := uint64(700000)
+				c.Ops = append(c.Ops, Op{K: "gc", N: 1}, Op{K: "drain"})
+				for k := 0; k < 240; k++ {
+					id++
+					c.Ops = append(c.Ops, Op{K: "set", Key: c.Keys[r.Intn(len(c.Keys))], ID: id, Size: 1 + r.Intn(16)})
+					if k%60 == 59 {
+						c.Ops = append(c.Ops, Op{K: "gc", N: 1}, Op{K: "drain"})
+					}
+				}
+			}
 			if idx%2 == 1 {
 				// many live keys: directories stay full (several per root at the same time), also across reopenings
 				for i := 0; i < 400; i++ {
@@ -211,6 +225,7 @@ func init() {
 				}
 			}
 			c.World.MaxDirCount = []uint64{0, 1, 50, 99, 100, 100, 101, 150}[r.Intn(8)]
+			c.World.RootStyle = []int{0, 0, 1, 2, 3}[r.Intn(5)] // roots as an operator might spell them
 			for i := range c.Ops {
 				if c.Ops[i].Size > 0 {
 					c.Ops[i].Size = 1 + c.Ops[i].Size%16
@@ -377,6 +392,17 @@ func (s *seqRun) walkShape(i int, o Op) {
 			}
 		}
 	}
+	// candidates of a fair choice: every directory below the limit (an upper bound on what the
+	// implementation may choose from, hence a lower bound on the chance of any one of them)
+	cand := 0
+	for _, n := range dirs {
+		if n < limit {
+			cand++
+		}
+	}
+	if cand < 2 {
+		cand = 2
+	}
 	for d, n := range dirs {
 		if n > limit {
 			s.fail("dir-over-limit", "count", fmt.Sprintf("after step %d (%s): directory %s holds %d entries, the limit is %d", i, o, d, n, limit))
@@ -406,9 +432,10 @@ func (s *seqRun) walkShape(i int, o Op) {
 				}
 				if isWrite && o.Key != "" {
 					s.writesSince[d]++
+					s.missLog[d] += math.Log(1 - 1/float64(cand))
 				}
-				if s.writesSince[d] > 300 {
-					s.fail("dir-shape", "not-reused", fmt.Sprintf("after step %d: directory %s was full, regained room through deletions and received no new file in 300 further writes", i, d))
+				if s.missLog[d] < -27.7 { // e^-27.7 < 1e-12
+					s.fail("dir-shape", "not-reused", fmt.Sprintf("after step %d: directory %s was full, regained room through deletions and received no new file in %d further writes; with the numbers of directories below the limit at those writes the chance of that under the uniform choice the code makes is below 1e-12", i, d, s.writesSince[d]))
 					return
 				}
 			}
